@@ -6,6 +6,9 @@
 (*   "asbuilt" (before the fix): A := A_new A, b := A_new b + b_new only   *)
 (*                               in affine mode (column-vector convention) *)
 (*   "fixed"                   : A := A A_new, b := b A_new (+ b_new)      *)
+(*   "resetkeepsb"             : as "fixed", but reset() forgets only A    *)
+(* A stage of mode "reset" is the call reset(): the balance is neutral     *)
+(* again and what was fitted before it does not matter any more.           *)
 EXTENDS Integers, Sequences, FiniteSets
 
 RECURSIVE Sum3(_, _)
@@ -19,14 +22,20 @@ Z3 == <<0, 0, 0>>
 ApplyBal(A, b, x) == VAdd(RowTimes(x, A), b)
 
 \* a stage is [mode, A, b]; non-affine stages have b = 0
-RECURSIVE Sequential(_, _)
-Sequential(stages, x) == IF stages = <<>> THEN x
-                         ELSE Sequential(Tail(stages), ApplyBal(Head(stages).A, Head(stages).b, x))
+RECURSIVE SeqApply(_, _)
+SeqApply(stages, x) == IF stages = <<>> THEN x
+                       ELSE SeqApply(Tail(stages), ApplyBal(Head(stages).A, Head(stages).b, x))
+LastReset(stages) == LET Rs == {i \in 1..Len(stages) : stages[i].mode = "reset"}
+                     IN IF Rs = {} THEN 0 ELSE CHOOSE i \in Rs : \A j \in Rs : j <= i
+Effective(stages) == SubSeq(stages, LastReset(stages) + 1, Len(stages))
+Sequential(stages, x) == SeqApply(Effective(stages), x)
 RECURSIVE Accumulate(_, _, _, _)
 Accumulate(rule, stages, A, b) ==
   IF stages = <<>> THEN <<A, b>>
   ELSE LET s == Head(stages) IN
-       IF rule = "asbuilt"
+       IF s.mode = "reset"
+         THEN Accumulate(rule, Tail(stages), I3, IF rule = "resetkeepsb" THEN b ELSE Z3)
+       ELSE IF rule = "asbuilt"
          THEN Accumulate(rule, Tail(stages), MM(s.A, A), IF s.mode = "affine" THEN VAdd(MatTimesCol(s.A, b), s.b) ELSE b)
          ELSE Accumulate(rule, Tail(stages), MM(A, s.A), VAdd(RowTimes(b, s.A), s.b))
 Accumulated(rule, stages, x) == LET r == Accumulate(rule, stages, I3, Z3) IN ApplyBal(r[1], r[2], x)
